@@ -402,3 +402,64 @@ pub fn san_data_for(pos: &Pos, m: &RMove, variant: u32) -> SanData {
         dst,
     }
 }
+
+/// Standard algebraic notation of a model-legal move, written by the harness from the rules
+/// model alone: piece letter (or figurine), minimal origin hint computed among legal moves
+/// only, capture mark, promotion suffix, castling symbols, '+' for check and '#' for mate.
+pub fn standard_san(pos: &Pos, legal: &[RMove], m: &RMove, utf8: bool) -> String {
+    let piece_ch = |p: u8| -> char {
+        if utf8 {
+            ['\u{2659}', '\u{2654}', '\u{2658}', '\u{2657}', '\u{2656}', '\u{2655}'][p as usize]
+        } else {
+            b"PKNBRQ"[p as usize] as char
+        }
+    };
+    let fch = |sq: u8| (b'a' + sq % 8) as char;
+    let rch = |sq: u8| (b'8' - sq / 8) as char;
+    let mut s = String::new();
+    match m.kind {
+        rm::K_CASTLE_K => s.push_str("O-O"),
+        rm::K_CASTLE_Q => s.push_str("O-O-O"),
+        _ => {
+            let capture = is_capture(pos, m);
+            if is_pawn(m) {
+                if file_of(m.src as usize) != file_of(m.dst as usize) {
+                    s.push(fch(m.src));
+                    s.push('x');
+                }
+                s.push_str(&rm::sq_name(m.dst as usize));
+                if let Some(p) = m.promo_piece() {
+                    if !utf8 {
+                        s.push('=');
+                    }
+                    s.push(piece_ch(p));
+                }
+            } else {
+                s.push(piece_ch(piece_of(m.cell)));
+                let rivals: Vec<&RMove> = legal
+                    .iter()
+                    .filter(|x| x.kind == rm::K_SIMPLE && x.cell == m.cell && x.dst == m.dst && x.src != m.src)
+                    .collect();
+                if !rivals.is_empty() {
+                    let same_file = rivals.iter().any(|x| x.src % 8 == m.src % 8);
+                    let same_rank = rivals.iter().any(|x| x.src / 8 == m.src / 8);
+                    if same_rank || !same_file {
+                        s.push(fch(m.src));
+                    }
+                    if same_file {
+                        s.push(rch(m.src));
+                    }
+                }
+                if capture {
+                    s.push('x');
+                }
+                s.push_str(&rm::sq_name(m.dst as usize));
+            }
+        }
+    }
+    let next = pos.make(*m);
+    if next.in_check() {
+        s.push(if next.has_legal() { '+' } else { '#' });
+    }
+    s
+}
